@@ -76,12 +76,12 @@ theorem parseReversePath_pathArg (lp dom ps : Bytes) (hlp : lp ≠ []) (hlpok : 
 
 /-- **C14_mail_line_trip.**  The whole MAIL line.  For every 7-bit mailbox `local@domain` with a dot-string local part and
     every option value of the domain of `C14_mail_options_trip`, against a greeted server (session `id`, no chunked transfer
-    open) that offers and has enabled the extensions: the client model produces a line; that line followed by CRLF is parsed
+    open) that offers and has enabled the extensions (`effCfg`: REQUIRETLS counts as enabled only under TLS): the client model produces a line; that line followed by CRLF is parsed
     by the server model's `parseCmd` into the verb `MAIL` and an argument; and `handleMail` on that argument is exactly the
     `Session.Mail` call with the client's address and the client's options (`mailCall` emits the `mail` event with them and
     answers with the backend's result). -/
 theorem C14_mail_line_trip (ext : List (Bytes × Bytes)) (o : Client.MailOptions) (s : S)
-    (he : AllExt ext) (hc : CfgOn s.cfg o) (hd : MailDomain o)
+    (he : AllExt ext) (hc : CfgOn (effCfg s) o) (hd : MailDomain o)
     (lp dom : Bytes) (hlp : lp ≠ []) (hlpok : lp.all lpOk = true) (hdom : dom ≠ []) (hdomok : dom.all domOk = true)
     (hlast : dom.getLast? ≠ some 64) (hascii : Ascii (lp ++ [64] ++ dom)) (hvl : Client.validLine (lp ++ [64] ++ dom) = true)
     (hhelo : s.c.helo ≠ []) (hb : s.c.bdat = none) (id : Nat) (hs : s.c.session = some id) :
@@ -125,7 +125,7 @@ theorem C14_mail_line_trip (ext : List (Bytes × Bytes)) (o : Client.MailOptions
       trimSpace_id pa hpa (by intro b t e; simp only [pa, pathArg, List.cons_append, List.nil_append, List.cons.injEq] at e; rw [← e.1]; exact (by decide : isSpaceRune (60 : Byte).toNat = false))
         (fun b hb => graphic_NoSp b (hpl b hb))
     rw [hts2, parseReversePath_pathArg lp dom ps hlp hlpok hdom hdomok hlast]
-    simp only [ps, parseArgs_spaced _ (mailToks_ok o hd) (mailToks_keys o), server_mailToks s.cfg o hc hd, hs]
+    simp only [ps, parseArgs_spaced _ (mailToks_ok o hd) (mailToks_keys o), server_mailToks (effCfg s) o hc hd, hs]
     rfl
 
 /-- the `Session.Rcpt` call and the reply to it: the tail of `handleRcpt` (conn.go), spelled out to state the theorem -/
